@@ -596,6 +596,54 @@ func c04rleForeign(r *rand.Rand, w int, vals []uint32) []byte {
 	return out
 }
 
+// c04rleForeignBoolRuns writes a BOOLEAN page body directly from a random run list, the way other
+// writers (parquet-java, arrow, duckdb) lay booleans out: RLE runs of any length (so runs start and
+// end at any bit offset) with `true` stored as 01 or FF, mixed with bit-packed runs of 8g values.
+// Returns the body and the values it encodes (padding of bit-packed runs included, they are values).
+func c04rleForeignBoolRuns(r *rand.Rand) (body []byte, vals []uint32) {
+	put := func(u uint64) {
+		var b [10]byte
+		body = append(body, b[:binary.PutUvarint(b[:], u)]...)
+	}
+	lens := []int{1, 2, 3, 4, 5, 7, 8, 9, 15, 16, 17, 23, 24, 25, 63, 64, 65, 127, 128, 129}
+	nruns := 1 + r.Intn(6)
+	for k := 0; k < nruns; k++ {
+		if r.Intn(3) == 0 {
+			g := 1 + r.Intn(3)
+			put(uint64(g)<<1 | 1)
+			for j := 0; j < g; j++ {
+				b := byte(r.Intn(256))
+				if r.Intn(3) == 0 {
+					b = []byte{0x00, 0xFF, 0x01, 0x80}[r.Intn(4)]
+				}
+				body = append(body, b)
+				for t := 0; t < 8; t++ {
+					vals = append(vals, uint32(b>>uint(t))&1)
+				}
+			}
+			continue
+		}
+		n := lens[r.Intn(len(lens))]
+		if r.Intn(3) == 0 {
+			n = 1 + r.Intn(200)
+		}
+		bit := uint32(r.Intn(2))
+		put(uint64(n) << 1)
+		switch {
+		case bit == 0:
+			body = append(body, 0x00)
+		case r.Intn(2) == 0:
+			body = append(body, 0x01)
+		default:
+			body = append(body, 0xFF)
+		}
+		for j := 0; j < n; j++ {
+			vals = append(vals, bit)
+		}
+	}
+	return body, vals
+}
+
 func c04rleWrap(kind string, w int, body []byte) []byte {
 	switch kind {
 	case "bool":
@@ -933,7 +981,22 @@ func c04rleDecMirror(ctx *core.Ctx, b *c04rleBatch, kind string, w int, stream [
 	case "dict":
 		req = "rle.godecdict " + hexS
 	case "bool":
-		req = "rle.godecbool " + hexS
+		// the BYTE-level mirror (appendBitsAt / appendBitRun / resize over a destination whose spare
+		// capacity holds the given byte); proved equal to the bit-level mirror rle.godecbool, which
+		// is still asked on a quarter of the streams
+		req = fmt.Sprintf("rle.godecboolbytes %d %s", []int{0, 255, 0xA5}[len(stream)%3], hexS)
+		if len(stream)%4 == 0 {
+			b.ask("rle.godecbool "+hexS, func(ans string) {
+				if strings.HasPrefix(ans, "err") {
+					ans = "err"
+				}
+				if ans != impl {
+					ctx.Fail("L2", "rle-decode-mirror-bool-bitlevel", "Go DecodeBoolean differs from the bit-level Lean mirror",
+						map[string]any{"kind": kind, "stream": hexS, "impl": impl, "model": ans, "variant": ctx.Variant,
+							"replay_case": fmt.Sprintf("rle-dec %s %d %s", kind, w, hexS)})
+				}
+			})
+		}
 	default:
 		return
 	}
@@ -1324,7 +1387,7 @@ func RunC04Rle(ctx *core.Ctx) {
 		return
 	}
 	nWorkers := 14
-	perWorker := ctx.Scale(9000, 80000)
+	perWorker := ctx.Scale(9000, 50000)
 	if ctx.Widen {
 		perWorker *= 3
 	}
@@ -1353,6 +1416,12 @@ func RunC04Rle(ctx *core.Ctx) {
 				}
 				if enc := c04rleEncodeCase(ctx, r, bufs, b, c); enc != nil {
 					lastEnc, lastKind, lastW = enc, c.kind, c.w
+				}
+				// a BOOLEAN page of another writer, built from a random run list: about one case in eight
+				if r.Intn(8) == 0 {
+					body, vals := c04rleForeignBoolRuns(r)
+					ctx.Hist("rle.foreign-bool-runs", c04rleLenClass(len(vals)))
+					c04rleForeignCase(ctx, r, bufs, b, c04rleCase{kind: "bool", tag: "foreign-runs"}, vals, c04rleWrap("bool", 1, body))
 				}
 				// malformed stream: about one case in three
 				if r.Intn(3) == 0 {
